@@ -13,11 +13,13 @@ import fcntl
 import hashlib
 import json
 import os
+import re
+import shutil
 import subprocess
 import time
 
-from common import (BIN, REPO, ToolError, Verdict, build, build_repo_bin, log, seed, tlc, unwrap_print,
-                    validate_trace, workdir, write_evidence)
+from common import (BIN, REPLAYS, REPO, WORK, ToolError, Verdict, build, build_repo_bin, log, seed, tlc, unwrap_print,
+                    validate_trace, write_evidence)
 
 PID = "C20"
 RIG = os.path.join(BIN, "cfg_rig")
@@ -29,6 +31,31 @@ PORTS_LOCK = "/tmp/verif-C20-loopback-ports.lock"   # the binary stage listens o
 MAX_SIGNATURES = 10      # distinct disagreement signatures turned into VIOLATION lines per stage (all are counted)
 
 DEVIATIONS = ["oneshot_or", "file_over_cli", "port_forced", "auth_any", "auth_partial", "net_any", "verify_before_patch"]
+
+
+def own_workdir():
+    """work/C20/run-<pid>: a directory of this run only.  (common.workdir() empties work/C20, which pulls the files from
+    under a second run of this check started meanwhile - seen in practice: traces rewritten while TLC was reading them.)
+    Directories of runs that no longer exist are removed here."""
+    base = os.path.join(WORK, PID)
+    os.makedirs(base, exist_ok=True)
+    os.makedirs(REPLAYS, exist_ok=True)
+    for d in os.listdir(base):
+        p = os.path.join(base, d)
+        m = re.match(r"run-(\d+)$", d)
+        if m and os.path.exists("/proc/%s" % m.group(1)):
+            continue
+        if os.path.isdir(p):
+            shutil.rmtree(p, ignore_errors=True)
+        else:
+            try:
+                os.remove(p)
+            except OSError:
+                pass
+    wd = os.path.join(base, "run-%d" % os.getpid())
+    shutil.rmtree(wd, ignore_errors=True)
+    os.makedirs(wd)
+    return wd
 
 
 def tla_set(xs):
@@ -447,7 +474,7 @@ def replay_file(wd, path, meta_path, teosd, teos_cli, verdict, stats):
 
 def main(tier, replay=None):
     t0 = time.time()
-    wd = workdir(PID)
+    wd = own_workdir()
     build(["cfg_rig"])
     teosd = build_repo_bin("teos", "teosd")
     teos_cli = build_repo_bin("teos", "teos-cli")
